@@ -198,7 +198,7 @@ step_common(Kind k, const void *addr)
 {
   auto &me = *E->t[my];
   E->step++;
-  me.idle++;
+  if (k != kHarness) me.idle++;  // only steps of the code under test count towards "waiting without progress"
   if (E->cfg.trace) {
     static const char *kn[] = {"load", "store", "rmw", "casfail", "fence", "plainR", "plainW", "hint", "harness"};
     fprintf(stderr, "%6lu T%d@%u %-7s %p%s\n", E->step, my, me.lstep, kn[k], addr, me.yielding ? " (yielding)" : "");
@@ -430,6 +430,16 @@ preempt_now(int target)
     E->st.preempts_taken++;
     switch_to(n);
   }
+}
+
+void
+harness_yield()
+{
+  if (!active() || E->nopreempt > 0) return;
+  auto &me = *E->t[my];
+  step_common(kHarness, nullptr);
+  me.yielding = true;
+  sched_decision(kHint);
 }
 
 void
